@@ -1,4 +1,4 @@
-HOOK_COMMITS = ["74bf6ff", "82c1591", "9aba3ab", "7b80cf4", "aa851e5", "4f43e9e", "0d9cb6c", "ac67f30", "f87827f"]
+HOOK_COMMITS = ["74bf6ff", "82c1591", "9aba3ab", "7b80cf4", "aa851e5", "4f43e9e", "0d9cb6c", "ac67f30", "f87827f", "49c2432"]
 
 ALL = ["C%02d" % i for i in range(1, 21)]
 
@@ -28,10 +28,12 @@ TEXTS = {
                technique="Coq proof (simulation invariant over all schedules of an action-level model) + linearizability search on recorded concurrent histories with the extracted model as oracle"),
     "C14": dict(text="Coq theorems, exhaustive over ALL schedules for a bounded initial population (1 writer; 2 concurrent writers; 1 writer and 1 explicit CleanUp caller; every maintenance task they spawn): in every terminal configuration of the small-step drain-status "
                      "model all threads have finished, the write buffer is empty, the status is idle and the lock is free — proved by computing the closed reachable set in the kernel (vm_compute) plus a soundness lemma. "
-                     "Engine: the real cache with the default executor under hook-injected perturbation; after the calls return only atomic loads are made and quiescence, bound, policy links and notification counts are checked.",
+                     "The model is tied to the code by the sched engine: the real cache is executed one macro step at a time (goroutines parked at 9 hook points, blocking on the eviction lock read from the runtime's wait reasons) under generated schedules, "
+                     "and the extracted model must show the same status, buffer size, lock and thread positions after every step (macro steps are proved to be small-step runs: DrainMacro.macro_step_reachable). "
+                     "Drain engine: the real cache with the default executor under hook-injected perturbation and scripted windows; after the calls return only atomic loads are made and quiescence, bound, policy links and notification counts are checked.",
                design_ref="DESIGN.md section 5, C14",
-               note="Trusted: Coq kernel incl. vm_compute, std++ gset; Go harness and hook points (tag verif). The unbounded-threads statement is not proved; the model is not replayed against the code step by step (the tie is the engine's oracle under perturbed schedules).",
-               technique="Coq: kernel-checked exhaustive exploration of a small-step protocol model with a proved closure/soundness lemma (bounded population, all schedules) + perturbed stress with a no-further-calls quiescence oracle"),
+               note="Trusted: Coq kernel incl. vm_compute, std++ gset; Go harness and hook points (tag verif). The unbounded-threads statement is not proved; the model is replayed against the code at hook-point granularity (sched engine), finer interleavings only through the model.",
+               technique="Coq: kernel-checked exhaustive exploration of a small-step protocol model with a proved closure/soundness lemma (bounded population, all schedules) + step-by-step correspondence replay of controlled schedules (sched) + perturbed stress with a no-further-calls quiescence oracle"),
     "C08": dict(text="Coq theorems over the single-flight protocol model (any number of threads and keys, every event order): loader intervals for one key never overlap unless a write/invalidation/eviction superseded the older call; "
                      "a caller that finds a registered call joins it; every waiter is released by its call's finish for every outcome including panic; no in-flight record survives. Tied to the code by executing scripted interleavings "
                      "with a gated loader and comparing joins, loader starts, releases and values with the model after every step.",
